@@ -27,5 +27,7 @@ def check(run):
     for fam in BUILD:
         run.gen("Gen_Build", consts={"Fam": fam}, tag="Gen_Build_" + fam)
     run.gen("Gen_C06")      # signing constructors: decoded content (C02), published date (C15)
+    # histories on the library's mutable objects: what a builder / a RouterInfo handed out earlier stays what it was
+    run.gen("Gen_Objects")
     run.replay_and_judge()
     return vlib.finish(run, "model_checking", RULE, ASSUME)
